@@ -16,6 +16,23 @@ NOTES = ('Every check executes the implementation in /repo/src (working tree) '
          'DESIGN.md.')
 
 CHECKS = [
+    {'id': 'C15', 'engine': 'explore', 'level': 'exploration',
+     'design_ref': 'DESIGN.md §4 C15',
+     'technique': 'exhaustive small-scope enumeration of directory trees x '
+                  'option vectors on tmpfs, real runner run, file-system diff '
+                  'against a two-sided (must/may) reference',
+     'text': 'Every subset of <=4 (thorough: 6) of 23 menu entries (sources, '
+             'orphaned and non-orphaned .pyc/.pyo incl. x.py+x.pyc+x.pyo, '
+             'look-alikes .pyc/pyc/X.PYC/x.pyc.bak/w.py.pyc/x.py,cover, '
+             '__pycache__, .git, CVS, node_modules, foo-bar, sub package) is '
+             'materialised and the real runner run under 10 option vectors '
+             '(--path, --test-path, overlapping paths, -k, --usecompiled, '
+             '--ignore_dir, and -j2 / resumed children with and without -k); '
+             'the tree is diffed by path, size, sha256 and mtime: every '
+             'must-delete orphan is gone, nothing outside may-delete is gone, '
+             'nothing else changed or appeared.',
+     'note': 'Symlinks, case-insensitive file systems and names outside the '
+             'menu are not covered.'},
     {'id': 'C03', 'engine': 'explore', 'level': 'exploration',
      'design_ref': 'DESIGN.md §4 C03',
      'technique': 'bounded exhaustive enumeration of declaration-chain worlds '
@@ -241,7 +258,7 @@ CHECKS = [
 ]
 
 _PENDING = ['C06', 'C07', 'C09',
-            'C10', 'C11', 'C14', 'C15', 'C17', 'C18',
+            'C10', 'C11', 'C14', 'C17', 'C18',
             'C19']
 _DONE = {c['id'] for c in CHECKS}
 NOT_APPLICABLE = [
